@@ -740,5 +740,10 @@ fn get_max_packet_points(prototype: &[Record]) -> Result<usize> {
     let headers_size = DataPacketHeader::SIZE + bs_size_headers;
     let max_incomplete_bytes = prototype.len();
     let u16_max = u16::MAX as usize;
-    Ok(((u16_max - headers_size - max_incomplete_bytes - SAFETY_MARGIN) * 8) / point_size_bits)
+    let reserved = headers_size + max_incomplete_bytes + SAFETY_MARGIN;
+    let max_points = (u16_max.saturating_sub(reserved) * 8) / point_size_bits;
+    if max_points == 0 {
+        Error::not_implemented("Prototypes where a single point does not fit into a data packet")?
+    }
+    Ok(max_points)
 }
